@@ -21,6 +21,7 @@ type gHook struct {
 	Weight   string   `json:"weight"` // annotation text; "" = absent
 	Events   []string `json:"events"`
 	Policies []string `json:"policies"`
+	Sep      string   `json:"sep,omitempty"` // how the lists in the annotations are written: "," (default), ", ", " , "
 }
 
 func (h gHook) key() string { return objKey(h.Typed, h.Name) }
@@ -31,6 +32,13 @@ func (h gHook) weightInt() int {
 	}
 	return v
 }
+func (h gHook) sep() string {
+	if h.Sep == "" {
+		return ","
+	}
+	return h.Sep
+}
+
 func (h gHook) effPolicies() []string {
 	if len(h.Policies) == 0 {
 		return []string{"before-hook-creation"}
@@ -52,12 +60,12 @@ func (h gHook) yaml() string {
 		kind = "NamespacedType"
 	}
 	var b strings.Builder
-	fmt.Fprintf(&b, "apiVersion: v1\nkind: %s\nmetadata:\n  name: %s\n  annotations:\n    \"helm.sh/hook\": %q\n", kind, h.Name, strings.Join(h.Events, ","))
+	fmt.Fprintf(&b, "apiVersion: v1\nkind: %s\nmetadata:\n  name: %s\n  annotations:\n    \"helm.sh/hook\": %q\n", kind, h.Name, strings.Join(h.Events, h.sep()))
 	if h.Weight != "" {
 		fmt.Fprintf(&b, "    \"helm.sh/hook-weight\": %q\n", h.Weight)
 	}
 	if len(h.Policies) > 0 {
-		fmt.Fprintf(&b, "    \"helm.sh/hook-delete-policy\": %q\n", strings.Join(h.Policies, ","))
+		fmt.Fprintf(&b, "    \"helm.sh/hook-delete-policy\": %q\n", strings.Join(h.Policies, h.sep()))
 	}
 	b.WriteString("data:\n  k: v\n")
 	return b.String()
@@ -94,6 +102,9 @@ func genHooks(r *Rng) []gHook {
 					h.Policies = append(h.Policies, p)
 				}
 			}
+		}
+		if r.Chance(25) {
+			h.Sep = Pick(r, []string{", ", " , ", ",  "})
 		}
 		out = append(out, h)
 	}
